@@ -22,6 +22,8 @@ def work(item, opts):
         for k in ("mode", "workers"):
             if k in item:
                 case[k] = item[k]
+    if isinstance(item, dict) and "seed" in item and "opt" not in item:
+        case["spec"] = dict(case["spec"], seed=None if item["seed"] == "none" else item["seed"])
     delay = item.get("delay") if isinstance(item, dict) else None
     if isinstance(item, dict) and item.get("prior"):
         # the same optimizer instance is first used on a sibling task (same variables; other objectives, weights, seed)
